@@ -4,7 +4,6 @@ import (
 	"encoding/json"
 	"fmt"
 	"os"
-	"os/exec"
 	"path/filepath"
 	"runtime"
 	"sort"
@@ -141,12 +140,11 @@ func runControl(prop, repo string, ctl Control, base map[string]bool) (res Contr
 	}
 	defer os.RemoveAll(tmp)
 	scratch := filepath.Join(tmp, "repo")
-	if outb, err := exec.Command("cp", "-r", repo, scratch).CombinedOutput(); err != nil {
+	if err := copyTree(repo, scratch); err != nil {
 		res.Status = "skipped"
-		res.Detail = "copy failed: " + string(outb)
+		res.Detail = "copy failed: " + err.Error()
 		return
 	}
-	os.RemoveAll(filepath.Join(scratch, ".git"))
 	for _, e := range ctl.Edits {
 		p := filepath.Join(scratch, e.File)
 		b, _ := os.ReadFile(p)
@@ -218,4 +216,32 @@ func runControl(prop, repo string, ctl Control, base map[string]bool) (res Contr
 		}
 	}
 	return
+}
+
+// copyTree copies the working tree (not .git) of src to dst.
+func copyTree(src, dst string) error {
+	return filepath.Walk(src, func(p string, info os.FileInfo, err error) error {
+		if err != nil {
+			return err
+		}
+		rel, _ := filepath.Rel(src, p)
+		if rel == ".git" || strings.HasPrefix(rel, ".git"+string(filepath.Separator)) {
+			if info.IsDir() {
+				return filepath.SkipDir
+			}
+			return nil
+		}
+		target := filepath.Join(dst, rel)
+		if info.IsDir() {
+			return os.MkdirAll(target, 0o755)
+		}
+		if !info.Mode().IsRegular() {
+			return nil
+		}
+		b, err := os.ReadFile(p)
+		if err != nil {
+			return err
+		}
+		return os.WriteFile(target, b, 0o644)
+	})
 }
